@@ -198,7 +198,8 @@ func targetcfgPairs(args []string) error {
 	if err != nil {
 		return err
 	}
-	uni := tcUniverse([]string{"t1", "t2"}, []string{"r1", "r2"}, []string{"c1", "c2"}, []int{0, 1, 2})
+	// the request names of the small universe coincide with a target name and differ from it: one namespace each
+	uni := tcUniverse([]string{"t1", "t2"}, []string{"t1", "r2"}, []string{"c1", "c2"}, []int{0, 1, 2})
 	r := rand.New(rand.NewSource(seedFromEnv()))
 	n, nb := 0, 0
 	for _, b := range uni {
@@ -247,6 +248,13 @@ func targetcfgRandom(args []string) error {
 		d.reset()
 		tn := []string{"t1", "t2", "t3", "t4", "t5", "t6", "t7", "t8"}[:2+r.Intn(7)]
 		rn := []string{"r1", "r2", "r3", "r4"}[:1+r.Intn(4)]
+		if r.Intn(3) == 0 {
+			// requests named like targets (a request per device): the two key spaces are independent
+			rn = append([]string{}, tn[:1+r.Intn(len(tn))]...)
+			if len(rn) > 4 {
+				rn = rn[:4]
+			}
+		}
 		cur := cfgRec{Rev: 0, T: []tRec{}, R: []rRec{}}
 		for k := 0; k < *length; k++ {
 			// edit the previous configuration: rename+edit requests, re-point / add / remove / edit targets
